@@ -38,6 +38,14 @@ def fam_precontext(q):
         lambda s, g: s["passes"][0]["maxRulePreContext"], q
 
 
+def fam_padded_slots(q):
+    """a rule of q items without leading context in a pass where another rule has 20 items of leading context: the
+    compiler prepends 20 ANY items, the rule occupies q + 20 slots (limit 64 on the padded rule)"""
+    return HDR + GT + "table(sub) pass(1) %s > %s cS; cB > cS / %s _; endpass; endtable;\n" % (
+        " ".join(["cA"] * q), " ".join(["cA"] * (q - 1)), " ".join(["cB"] * 20)), [], \
+        lambda s, g: (s["passes"][0]["ruleSortKeys"][0], s["passes"][0]["rulePreContext"][0]), (q, 0)
+
+
 def fam_features(q):
     feats = "".join('f%d { id = %d; name.1033 = string("F%d"); settings { a%d { value = 0; name.1033 = string("x"); } } default = a%d; }\n' % (i, 100 + i, i, i, i) for i in range(q))
     return HDR + GT + "table(feature)\n" + feats + "endtable;\ntable(sub) cA > cB; endtable;\n", [], None, q
@@ -122,6 +130,7 @@ FAMILIES = [
     ("passes", fam_passes, [127, 128, 129, 300], 200),
     ("rule_slots", fam_slots, [63, 64, 65, 200], 120),
     ("precontext", fam_precontext, [62, 63, 64, 200], 120),
+    ("padded_rule_slots", fam_padded_slots, [42, 43, 44, 45, 60], 120),
     ("features", fam_features, [62, 63, 64, 65, 200], 120),
     ("user_attr_index", fam_userattr, [15, 16, 17, 64], 120),
     ("glyph_attrs", fam_gattrs, [250, 252, 253, 256, 300], 120),
@@ -225,7 +234,7 @@ def run(tier, seed, replay=None):
     rep.coverage.update({
         "programs": stats["cases"], "traces_validated_against_impl": stats["cases"], "disagreements_checked": len(rep.violations),
         "evaluations": stats["cases"], "distinct_nontrivial": len(distinct), "outcomes": table,
-        "rule": "16 size-parameterised families x 4-5 sizes around each limit; distinct = distinct (family, size, outcome)",
+        "rule": "17 size-parameterised families x 4-5 sizes around each limit; distinct = distinct (family, size, outcome)",
         "samples": samples, "exhaustive": False,
     })
     rep.assumptions += ["field widths are my reading of GTF; limits are re-extracted from constants.h",
